@@ -1,4 +1,758 @@
 package main
 
-func cmdRun(args []string)    {}
-func cmdReplay(args []string) {}
+// Driver: instance matrices -> parallel symbolic runs -> native replay / validation -> evidence.
+
+import (
+	"bufio"
+	"encoding/json"
+	"flag"
+	"fmt"
+	"math"
+	"math/rand"
+	"os"
+	"os/exec"
+	"path/filepath"
+	"sort"
+	"strconv"
+	"strings"
+	"sync"
+	"time"
+)
+
+type propDef struct {
+	ID        string
+	Instances func(tier string, seed int64) []Instance
+	Tags      []string // build configurations ("" = default)
+	Bounds    map[string]interface{}
+	Anchored  []string // substrings of function names that are the property's anchors
+	Assume    []string
+	NeedReach []string
+}
+
+var props = map[string]*propDef{}
+
+func cmdRun(args []string) {
+	fs := flag.NewFlagSet("run", flag.ExitOnError)
+	prop := fs.String("prop", "", "property id")
+	tier := fs.String("tier", "quick", "quick|thorough")
+	jobs := fs.Int("j", 16, "workers")
+	filter := fs.String("only", "", "substring filter on instance names")
+	solver := fs.String("solver", "z3", "solver binary")
+	noReplay := fs.Bool("noreplay", false, "skip native replay (debug)")
+	noValidate := fs.Bool("novalidate", false, "skip translator validation (debug)")
+	budget := fs.Duration("budget", 0, "time box for the instance matrix (0 = none)")
+	verbose := fs.Bool("v", false, "verbose")
+	fs.Parse(args)
+	if t := os.Getenv("VERIF_TIER"); t == "quick" || t == "thorough" {
+		*tier = t
+	}
+	seed := int64(1)
+	if s := os.Getenv("VERIF_SEED"); s != "" {
+		if v, err := strconv.ParseInt(s, 10, 64); err == nil {
+			seed = v
+		}
+	}
+	pd := props[*prop]
+	if pd == nil {
+		fmt.Fprintf(os.Stderr, "unknown property %q\n", *prop)
+		os.Exit(2)
+	}
+	t0 := time.Now()
+	kf := loadKnownFindings()
+	qto := 10000
+	if *tier == "thorough" {
+		qto = 60000
+	}
+	insts := pd.Instances(*tier, seed)
+	if *filter != "" {
+		var f []Instance
+		for _, in := range insts {
+			if strings.Contains(in.Name, *filter) {
+				f = append(f, in)
+			}
+		}
+		insts = f
+	}
+	// seeded order so that a time-boxed run is a reproducible prefix
+	rng := rand.New(rand.NewSource(seed))
+	rng.Shuffle(len(insts), func(i, j int) { insts[i], insts[j] = insts[j], insts[i] })
+
+	// group by build tags
+	byTag := map[string][]Instance{}
+	for _, in := range insts {
+		tg, _ := in.Cfg["tags"].(string)
+		byTag[tg] = append(byTag[tg], in)
+	}
+	var tagKeys []string
+	for k := range byTag {
+		tagKeys = append(tagKeys, k)
+	}
+	sort.Strings(tagKeys)
+
+	var results []InstResult
+	var loadS float64
+	skipped := 0
+	for _, tg := range tagKeys {
+		ld, err := Load(tg)
+		if err != nil {
+			fmt.Fprintf(os.Stderr, "LOAD FAILED (tags=%q): %v\n", tg, err)
+			os.Exit(2)
+		}
+		loadS += ld.loadTime.Seconds()
+		list := byTag[tg]
+		ch := make(chan Instance)
+		var mu sync.Mutex
+		var wg sync.WaitGroup
+		for w := 0; w < *jobs; w++ {
+			wg.Add(1)
+			go func() {
+				defer wg.Done()
+				sol := NewSolver(*solver, qto)
+				defer sol.Close()
+				for in := range ch {
+					it0 := time.Now()
+					r := runInstance(ld, sol, in, runOpts{kfOpen: kf.openSet(), collectND: true})
+					r.WallS = time.Since(it0).Seconds()
+					mu.Lock()
+					results = append(results, r)
+					mu.Unlock()
+					if *verbose {
+						fmt.Fprintf(os.Stderr, "  %-60s paths=%d obls=%d %.1fs %v\n", in.Name, r.Paths, len(r.Obls), r.WallS, r.Aborted)
+					}
+				}
+			}()
+		}
+		for _, in := range list {
+			if *budget > 0 && time.Since(t0) > *budget {
+				skipped++
+				continue
+			}
+			ch <- in
+		}
+		close(ch)
+		wg.Wait()
+		// validation and replay need the loaded program's harness list only
+		_ = ld
+	}
+	sort.Slice(results, func(i, j int) bool { return results[i].Inst.Name < results[j].Inst.Name })
+
+	ev := buildEvidence(pd, *tier, seed, results, kf)
+	ev.cov["load_s"] = loadS
+	ev.cov["instances_skipped_by_budget"] = skipped
+
+	// ---- translator validation (concrete differential against the native build) ----
+	validated := 0
+	if !*noValidate {
+		n := 8
+		if *tier == "thorough" {
+			n = 64
+		}
+		v, mism, err := validate(pd, results, n, seed)
+		if err != nil {
+			fmt.Fprintf(os.Stderr, "VALIDATION ERROR: %v\n", err)
+			os.Exit(2)
+		}
+		validated = v
+		if len(mism) > 0 {
+			for _, m := range mism {
+				fmt.Printf("VALIDATION-MISMATCH %s\n", m)
+			}
+			ev.cov["validation_mismatches"] = mism
+			writeEvidence(pd.ID, ev, *tier, seed, time.Since(t0).Seconds(), 0, validated)
+			fmt.Println("translator validation failed: the encoding disagrees with the native build; results are not trusted")
+			os.Exit(2)
+		}
+	}
+
+	// ---- replay of sat models ----
+	violations := 0
+	var vioLines []string
+	kfSeen := map[string]bool{}
+	unconfirmed := 0
+	if !*noReplay {
+		cands := collectCandidates(results)
+		conf, err := replayCandidates(pd.ID, cands, kf)
+		if err != nil {
+			fmt.Fprintf(os.Stderr, "REPLAY ERROR: %v\n", err)
+			os.Exit(2)
+		}
+		for _, c := range conf {
+			switch {
+			case c.confirmed && c.kf != "":
+				kfSeen[c.kf] = true
+				validated++
+			case c.confirmed:
+				violations++
+				validated++
+				vioLines = append(vioLines, fmt.Sprintf("VIOLATION property=%s replay=%s", pd.ID, c.path))
+				fmt.Printf("  violated: %s [%s] assertion %s\n", c.inst, c.harness, c.assert)
+			default:
+				unconfirmed++
+				fmt.Printf("UNCONFIRMED %s %s assertion %s (model does not reproduce natively: %s)\n", c.inst, c.harness, c.assert, c.path)
+			}
+		}
+	} else {
+		for _, r := range results {
+			for _, o := range r.Obls {
+				if o.Verdict == "violated" {
+					violations++
+					fmt.Printf("  (unreplayed) violated: %s %s %s\n", r.Inst.Name, o.ID, modelString(o.Model))
+				}
+				if o.Verdict == "known-finding" {
+					kfSeen[o.KF] = true
+				}
+			}
+		}
+	}
+	var kfIDs []string
+	for id := range kfSeen {
+		kfIDs = append(kfIDs, id)
+	}
+	sort.Strings(kfIDs)
+	var kfList []map[string]interface{}
+	for _, id := range kfIDs {
+		what := id
+		if f := kf.get(id); f != nil {
+			what = f.What
+		}
+		fmt.Printf("KNOWN-FINDING: property=%s %s: %s\n", pd.ID, id, what)
+		kfList = append(kfList, map[string]interface{}{"id": id, "reproduced": true})
+	}
+	ev.cov["known_findings"] = kfList
+	ev.cov["unconfirmed_models"] = unconfirmed
+	vacuous := ev.vacuous
+	wall := time.Since(t0).Seconds()
+	writeEvidence(pd.ID, ev, *tier, seed, wall, violations, validated)
+	fmt.Printf("%s %s: instances=%d paths=%d obligations=%d discharged=%d inconclusive=%d violated=%d queries=%d (nontrivial %d) solver=%.1fs wall=%.1fs validated=%d\n",
+		pd.ID, *tier, len(results), ev.paths, ev.obls, ev.discharged, ev.inconclusive, violations, ev.queries, ev.queries-ev.trivial, ev.solverS, wall, validated)
+	for _, l := range ev.inconcLines {
+		fmt.Println(l)
+	}
+	if len(vacuous) > 0 {
+		for _, v := range vacuous {
+			fmt.Printf("VACUOUS %s\n", v)
+		}
+		fmt.Println("vacuity check failed: a harness never reached its assertions")
+		os.Exit(2)
+	}
+	if violations > 0 {
+		for _, l := range vioLines {
+			fmt.Println(l)
+		}
+		os.Exit(1)
+	}
+	os.Exit(0)
+}
+
+type evidenceAcc struct {
+	cov          map[string]interface{}
+	paths        int
+	obls         int
+	discharged   int
+	inconclusive int
+	queries      int
+	trivial      int
+	solverS      float64
+	steps        int64
+	vacuous      []string
+	inconcLines  []string
+}
+
+func buildEvidence(pd *propDef, tier string, seed int64, results []InstResult, kf *KFFile) *evidenceAcc {
+	ev := &evidenceAcc{cov: map[string]interface{}{}}
+	funcs := map[string]bool{}
+	intr := map[string]int{}
+	aborted := map[string]int{}
+	var samples []interface{}
+	concreteOnly := 0
+	unknownBr := 0
+	byHarness := map[string]int{}
+	reachedBy := map[string]map[string]bool{}
+	pathLimited := 0
+	for _, r := range results {
+		ev.paths += r.Paths
+		ev.steps += r.Steps
+		ev.queries += r.Queries
+		ev.trivial += r.Trivial
+		ev.solverS += r.SolverS
+		unknownBr += r.UnknownBr
+		byHarness[r.Inst.Harness]++
+		if r.PathLimit {
+			pathLimited++
+		}
+		if reachedBy[r.Inst.Harness] == nil {
+			reachedBy[r.Inst.Harness] = map[string]bool{}
+		}
+		for k := range r.Reached {
+			reachedBy[r.Inst.Harness][k] = true
+		}
+		for _, f := range r.Funcs {
+			funcs[f] = true
+		}
+		for k, v := range r.Intr {
+			intr[k] += v
+		}
+		for k, v := range r.Aborted {
+			aborted[k] += v
+		}
+		if r.Err != "" {
+			aborted["ERR "+r.Err]++
+		}
+		nontriv := 0
+		var sampleQ string
+		for _, o := range r.Obls {
+			if o.Verdict == "known-finding" {
+				continue
+			}
+			ev.obls++
+			switch o.Verdict {
+			case "discharged":
+				ev.discharged++
+			case "inconclusive":
+				ev.inconclusive++
+				if len(ev.inconcLines) < 20 {
+					ev.inconcLines = append(ev.inconcLines, fmt.Sprintf("INCONCLUSIVE %s %s (solver unknown/timeout)", r.Inst.Name, o.ID))
+				}
+			}
+			if !o.Trivial {
+				nontriv++
+				if sampleQ == "" {
+					sampleQ = o.Query
+				}
+			}
+		}
+		if nontriv == 0 && len(r.Obls) > 0 {
+			concreteOnly++
+		}
+		if len(samples) < 6 && nontriv > 0 {
+			samples = append(samples, map[string]interface{}{"harness": r.Inst.Harness, "instance": r.Inst.Name, "cfg": r.Inst.Cfg,
+				"paths": r.Paths, "obligations": len(r.Obls), "nontrivial_obligations": nontriv, "symbolic_inputs": r.NDNames, "query": sampleQ, "solver_s": r.SolverS})
+		}
+	}
+	if len(samples) == 0 {
+		for _, r := range results {
+			if len(samples) < 3 {
+				samples = append(samples, map[string]interface{}{"harness": r.Inst.Harness, "instance": r.Inst.Name, "paths": r.Paths, "obligations": len(r.Obls)})
+			}
+		}
+	}
+	for k, v := range aborted {
+		if len(ev.inconcLines) < 40 {
+			ev.inconcLines = append(ev.inconcLines, fmt.Sprintf("INCONCLUSIVE-PATHS x%d: %s", v, k))
+		}
+	}
+	// vacuity: every harness must reach its witnesses on some instance
+	for h := range byHarness {
+		if len(reachedBy[h]) == 0 {
+			ev.vacuous = append(ev.vacuous, h+": no reach witness hit on any instance")
+		}
+	}
+	var fl, anchored []string
+	for f := range funcs {
+		fl = append(fl, f)
+		for _, a := range pd.Anchored {
+			if strings.Contains(f, a) {
+				anchored = append(anchored, f)
+				break
+			}
+		}
+	}
+	sort.Strings(fl)
+	sort.Strings(anchored)
+	var il []string
+	for k := range intr {
+		il = append(il, k)
+	}
+	sort.Strings(il)
+	ev.cov["states"] = ev.paths
+	ev.cov["transitions"] = ev.steps
+	ev.cov["samples"] = samples
+	ev.cov["instances"] = len(results)
+	ev.cov["instances_by_harness"] = byHarness
+	ev.cov["obligations"] = ev.obls
+	ev.cov["discharged"] = ev.discharged
+	ev.cov["trivial_queries"] = ev.trivial
+	ev.cov["nontrivial_queries"] = ev.queries - ev.trivial
+	ev.cov["queries"] = ev.queries
+	ev.cov["solver_time_s"] = math.Round(ev.solverS*100) / 100
+	ev.cov["concrete_only_instances"] = concreteOnly
+	ev.cov["inconclusive"] = map[string]interface{}{"obligations_unknown_or_timeout": ev.inconclusive, "aborted_paths_by_reason": aborted, "branch_feasibility_unknown": unknownBr, "instances_hitting_path_limit": pathLimited}
+	ev.cov["functions_encoded"] = map[string]interface{}{"count": len(fl), "anchored": anchored, "all": fl}
+	ev.cov["intrinsics_hit"] = il
+	ev.cov["bounds"] = pd.Bounds
+	ev.cov["exhaustive"] = false
+	ev.cov["solver"] = "z3 4.8.12 (-in, push/pop, no set-logic)"
+	return ev
+}
+
+func writeEvidence(id string, ev *evidenceAcc, tier string, seed int64, wall float64, violations, validated int) {
+	ev.cov["traces_validated_against_impl"] = validated
+	pd := props[id]
+	out := map[string]interface{}{
+		"property_id": id, "tier": tier, "seed": seed, "level": "model_checking",
+		"coverage": ev.cov, "wall_s": math.Round(wall*10) / 10, "violations": violations,
+		"assumptions": append([]string{"amd64 sizes and alignment", "go/ssa (x/tools v0.29.0) as front end", "intrinsic models listed in coverage.intrinsics_hit",
+			"structure (dtype, shape, layout, mode) instantiated per instance; data symbolic"}, pd.Assume...),
+	}
+	dir := filepath.Join(verifDir(), "evidence")
+	os.MkdirAll(dir, 0o755)
+	b, _ := json.MarshalIndent(out, "", " ")
+	os.WriteFile(filepath.Join(dir, id+".json"), b, 0o644)
+}
+
+// ---------- candidates and native replay ----------
+
+type candidate struct {
+	inst, harness, assert, kf string
+	cfg                       map[string]interface{}
+	model                     map[string]string
+	path                      string
+	confirmed                 bool
+	ring                      bool
+}
+
+func collectCandidates(results []InstResult) []*candidate {
+	var out []*candidate
+	seen := map[string]int{}
+	for _, r := range results {
+		for _, o := range r.Obls {
+			if o.Verdict != "violated" && o.Verdict != "known-finding" {
+				continue
+			}
+			kfid := ""
+			if o.Verdict == "known-finding" {
+				kfid = o.KF
+			}
+			key := r.Inst.Harness + "|" + o.ID + "|" + kfid
+			limit := 3
+			if kfid != "" {
+				limit = 2
+			}
+			if seen[key] >= limit {
+				continue
+			}
+			seen[key]++
+			out = append(out, &candidate{inst: r.Inst.Name, harness: r.Inst.Harness, assert: o.ID, kf: kfid, cfg: r.Inst.Cfg, model: o.Model, ring: r.Inst.Ring})
+		}
+	}
+	return out
+}
+
+func replayCandidates(prop string, cands []*candidate, kf *KFFile) ([]*candidate, error) {
+	if len(cands) == 0 {
+		return nil, nil
+	}
+	dir := filepath.Join(verifDir(), "replays", prop)
+	os.MkdirAll(dir, 0o755)
+	old, _ := filepath.Glob(filepath.Join(dir, "*.json"))
+	for _, f := range old {
+		os.Remove(f)
+	}
+	var open []string
+	for id := range kf.openSet() {
+		open = append(open, id)
+	}
+	sort.Strings(open)
+	byTags := map[string][]*candidate{}
+	for i, c := range cands {
+		c.path = filepath.Join(dir, fmt.Sprintf("%s-%d.json", c.harness, i))
+		rf := map[string]interface{}{"harness": c.harness, "cfg": c.cfg, "model": ringModel(c.model, c.ring), "assert": c.assert, "kf_open": open, "instance": c.inst}
+		b, _ := json.MarshalIndent(rf, "", " ")
+		os.WriteFile(c.path, b, 0o644)
+		tg, _ := c.cfg["tags"].(string)
+		byTags[tg] = append(byTags[tg], c)
+	}
+	for tg, list := range byTags {
+		var paths []string
+		for _, c := range list {
+			paths = append(paths, c.path)
+		}
+		res, err := nativeBatch(paths, tg)
+		if err != nil {
+			return nil, err
+		}
+		for _, c := range list {
+			r, ok := res[c.path]
+			if !ok {
+				continue
+			}
+			want := c.assert
+			if c.kf != "" {
+				want = c.assert + "@" + c.kf
+			}
+			if c.assert == "no-uncaught-panic" {
+				c.confirmed = r.panicked
+				continue
+			}
+			for _, f := range r.failures {
+				if f == want {
+					c.confirmed = true
+				}
+			}
+		}
+	}
+	return cands, nil
+}
+
+// ringModel converts ring-mode integer values to float bit patterns for native replay.
+func ringModel(m map[string]string, ring bool) map[string]string {
+	if !ring {
+		return m
+	}
+	out := map[string]string{}
+	for k, v := range m {
+		if strings.HasPrefix(v, "ring:") {
+			n, _ := strconv.ParseUint(v[5:], 10, 64)
+			out[k] = fmt.Sprintf("f64:%d", math.Float64bits(float64(int64(n))))
+		} else {
+			out[k] = v
+		}
+	}
+	return out
+}
+
+type nativeResult struct {
+	failures []string
+	panicked bool
+	assumeKO bool
+	observed string
+	panicMsg string
+}
+
+// nativeBatch runs the harnesses natively (go test -overlay) on a list of replay files.
+func nativeBatch(paths []string, tags string) (map[string]nativeResult, error) {
+	om, err := overlayMap()
+	if err != nil {
+		return nil, err
+	}
+	tmp, err := os.MkdirTemp("", "gosym-replay")
+	if err != nil {
+		return nil, err
+	}
+	defer os.RemoveAll(tmp)
+	testSrc := filepath.Join(harnessDir(), "native", "replay_test.go.txt")
+	repl := map[string]string{}
+	for v, r := range om {
+		repl[v] = r
+	}
+	repl[filepath.Join(repoDir, "zz_verif_replay_test.go")] = testSrc
+	ob, _ := json.Marshal(map[string]interface{}{"Replace": repl})
+	ovf := filepath.Join(tmp, "overlay.json")
+	os.WriteFile(ovf, ob, 0o644)
+	batch := filepath.Join(tmp, "batch.txt")
+	os.WriteFile(batch, []byte(strings.Join(paths, "\n")+"\n"), 0o644)
+	args := []string{"test", "-vet=off", "-count=1", "-timeout", "20m", "-overlay", ovf, "-run", "^TestVBatch$", "-v"}
+	if tags != "" {
+		args = append(args, "-tags", tags)
+	}
+	args = append(args, ".")
+	cmd := exec.Command("go", args...)
+	cmd.Dir = repoDir
+	cmd.Env = append(os.Environ(), "GOFLAGS=-mod=mod", "GOPROXY=off", "GOSUMDB=off", "GOTOOLCHAIN=local", "VERIF_BATCH="+batch)
+	out, _ := cmd.CombinedOutput()
+	res := map[string]nativeResult{}
+	sc := bufio.NewScanner(strings.NewReader(string(out)))
+	sc.Buffer(make([]byte, 1<<20), 1<<26)
+	for sc.Scan() {
+		line := sc.Text()
+		if !strings.HasPrefix(line, "VRESULT\t") {
+			continue
+		}
+		f := strings.Split(line, "\t")
+		if len(f) < 7 {
+			continue
+		}
+		r := nativeResult{panicked: f[3] == "true", assumeKO: f[4] == "true", observed: f[5], panicMsg: f[6]}
+		if f[2] != "" {
+			r.failures = strings.Split(f[2], ",")
+		}
+		res[f[1]] = r
+	}
+	if len(res) == 0 {
+		return nil, fmt.Errorf("native batch produced no results:\n%s", tail(string(out), 3000))
+	}
+	return res, nil
+}
+
+func tail(s string, n int) string {
+	if len(s) > n {
+		return s[len(s)-n:]
+	}
+	return s
+}
+
+// ---------- translator validation ----------
+
+// validate runs each harness on seeded concrete vectors in gosym's concrete mode and natively; results must agree.
+func validate(pd *propDef, results []InstResult, n int, seed int64) (int, []string, error) {
+	// choose instances: spread over harnesses
+	byH := map[string][]InstResult{}
+	for _, r := range results {
+		if len(r.NDNames) > 0 && r.Err == "" {
+			byH[r.Inst.Harness] = append(byH[r.Inst.Harness], r)
+		}
+	}
+	var hs []string
+	for h := range byH {
+		hs = append(hs, h)
+	}
+	sort.Strings(hs)
+	if len(hs) == 0 {
+		return 0, nil, nil
+	}
+	rng := rand.New(rand.NewSource(seed * 7919))
+	type vec struct {
+		inst  Instance
+		model map[string]string
+		path  string
+	}
+	var vecs []vec
+	for i := 0; i < n; i++ {
+		h := hs[i%len(hs)]
+		rs := byH[h]
+		r := rs[rng.Intn(len(rs))]
+		m := map[string]string{}
+		for j, name := range r.NDNames {
+			m[name] = randomLiteral(rng, r.NDSorts[j], name)
+		}
+		vecs = append(vecs, vec{inst: r.Inst, model: m})
+	}
+	dir, err := os.MkdirTemp("", "gosym-validate")
+	if err != nil {
+		return 0, nil, err
+	}
+	defer os.RemoveAll(dir)
+	byTags := map[string][]int{}
+	for i := range vecs {
+		vecs[i].path = filepath.Join(dir, fmt.Sprintf("v%d.json", i))
+		rf := map[string]interface{}{"harness": vecs[i].inst.Harness, "cfg": vecs[i].inst.Cfg, "model": ringModel(vecs[i].model, vecs[i].inst.Ring), "assert": "", "kf_open": []string{}}
+		b, _ := json.Marshal(rf)
+		os.WriteFile(vecs[i].path, b, 0o644)
+		tg, _ := vecs[i].inst.Cfg["tags"].(string)
+		byTags[tg] = append(byTags[tg], i)
+	}
+	validated := 0
+	var mism []string
+	for tg, idxs := range byTags {
+		var paths []string
+		for _, i := range idxs {
+			paths = append(paths, vecs[i].path)
+		}
+		nat, err := nativeBatch(paths, tg)
+		if err != nil {
+			return 0, nil, err
+		}
+		ld, err := Load(tg)
+		if err != nil {
+			return 0, nil, err
+		}
+		sol := NewSolver("z3", 10000)
+		for _, i := range idxs {
+			v := vecs[i]
+			r := runInstance(ld, sol, v.inst, runOpts{concrete: v.model, kfOpen: map[string]bool{}})
+			var fails []string
+			panicked := false
+			for _, o := range r.Obls {
+				if o.Verdict == "violated" {
+					if o.ID == "no-uncaught-panic" {
+						panicked = true
+					} else {
+						fails = append(fails, o.ID)
+					}
+				}
+			}
+			nr, ok := nat[v.path]
+			if !ok {
+				mism = append(mism, fmt.Sprintf("%s: no native result", v.inst.Name))
+				continue
+			}
+			if len(r.Aborted) > 0 {
+				// engine could not run the vector concretely: not a mismatch, but not validated either
+				continue
+			}
+			assumeKO := r.Dropped > 0
+			sym := fmt.Sprintf("fail=%v panic=%v assumeKO=%v obs=%s", fails, panicked, assumeKO, strings.Join(r.Observe, " "))
+			natS := fmt.Sprintf("fail=%v panic=%v assumeKO=%v obs=%s", nr.failures, nr.panicked, nr.assumeKO, nr.observed)
+			if len(fails) == 0 {
+				sym = fmt.Sprintf("fail=[] panic=%v assumeKO=%v obs=%s", panicked, assumeKO, strings.Join(r.Observe, " "))
+			}
+			if len(nr.failures) == 0 {
+				natS = fmt.Sprintf("fail=[] panic=%v assumeKO=%v obs=%s", nr.panicked, nr.assumeKO, nr.observed)
+			}
+			if sym != natS {
+				mism = append(mism, fmt.Sprintf("%s model{%s}\n   gosym : %s\n   native: %s (%s)", v.inst.Name, modelString(v.model), sym, natS, nr.panicMsg))
+			} else {
+				validated++
+			}
+		}
+		sol.Close()
+	}
+	return validated, mism, nil
+}
+
+func randomLiteral(rng *rand.Rand, tag string, name string) string {
+	switch {
+	case tag == "b":
+		return fmt.Sprintf("b:%d", rng.Intn(2))
+	case strings.HasPrefix(tag, "u"):
+		w, _ := strconv.Atoi(tag[1:])
+		var v uint64
+		switch rng.Intn(4) {
+		case 0:
+			v = rng.Uint64()
+		default:
+			v = uint64(int64(rng.Intn(9) - 2))
+		}
+		return fmt.Sprintf("%s:%d", tag, v&maskW(w))
+	case tag == "f32":
+		fs := []float32{0, float32(math.Copysign(0, -1)), 1, -1, 2.5, -3, float32(math.Inf(1)), float32(math.NaN()), 7, 100}
+		return fmt.Sprintf("f32:%d", math.Float32bits(fs[rng.Intn(len(fs))]))
+	case tag == "f64":
+		fs := []float64{0, math.Copysign(0, -1), 1, -1, 2.5, -3, math.Inf(1), math.NaN(), 7, 100}
+		return fmt.Sprintf("f64:%d", math.Float64bits(fs[rng.Intn(len(fs))]))
+	case tag == "?":
+		return "s_" + string(rune('a'+rng.Intn(4)))
+	case tag == "ring":
+		return fmt.Sprintf("ring:%d", uint64(int64(rng.Intn(9)-3)))
+	}
+	return "u64:0"
+}
+
+// cmdReplay re-runs one replay file against the native build: exit 1 if the recorded assertion fails natively.
+func cmdReplay(args []string) {
+	if len(args) < 1 {
+		fmt.Fprintln(os.Stderr, "usage: gosym replay <file.json>")
+		os.Exit(2)
+	}
+	b, err := os.ReadFile(args[0])
+	if err != nil {
+		fmt.Fprintln(os.Stderr, err)
+		os.Exit(2)
+	}
+	var rf struct {
+		Harness string                 `json:"harness"`
+		Cfg     map[string]interface{} `json:"cfg"`
+		Assert  string                 `json:"assert"`
+	}
+	json.Unmarshal(b, &rf)
+	tg, _ := rf.Cfg["tags"].(string)
+	abs, _ := filepath.Abs(args[0])
+	res, err := nativeBatch([]string{abs}, tg)
+	if err != nil {
+		fmt.Fprintln(os.Stderr, err)
+		os.Exit(2)
+	}
+	r := res[abs]
+	fmt.Printf("harness=%s assert=%s native: failures=%v panicked=%v %s\n", rf.Harness, rf.Assert, r.failures, r.panicked, r.panicMsg)
+	for _, f := range r.failures {
+		if f == rf.Assert || strings.HasPrefix(f, rf.Assert+"@") {
+			fmt.Println("REPRODUCED")
+			os.Exit(1)
+		}
+	}
+	if rf.Assert == "no-uncaught-panic" && r.panicked {
+		fmt.Println("REPRODUCED")
+		os.Exit(1)
+	}
+	fmt.Println("not reproduced")
+}
